@@ -205,6 +205,8 @@ PropViolations(e, o) ==
         THEN {<<"C19", "MAC key history exceeds the live key pairs">>} ELSE {})
   \cup (IF e.ev # "Done" /\ e.st.ms = "enc" /\ e.st.npend > 8
         THEN {<<"C19", "undisclosed MAC key list grows">>} ELSE {})
+  \cup (IF e.ev # "Done" /\ e.st.penddup > 0
+        THEN {<<"C19", "the same MAC key is queued for disclosure more than once">>} ELSE {})
   \cup (IF e.ev # "Done" /\ e.st.inj > 0
         THEN {<<"C19", "injected messages retained after the call">>} ELSE {})
   \cup (IF e.ev = "Recv" /\ e.atk # "" /\ e.plain = 0 /\ (\A i \in DOMAIN e.out : e.out[i].t = "E")
